@@ -63,7 +63,9 @@ namespace RecInt
         rint(const rint<K-1>& rl) : Value(rl.Value)
         { if (rl < 0) { Value.Low = -Value.Low; Value = -Value; } }
         rint(const ruint<K>& r) : Value(r) {}
-        template <typename T> rint(const T& b) : Value(b) {}
+        template <typename T, __RECINT_IS_ARITH(T, int) = 0> rint(const T& b) : Value(b) {}
+        template <typename T, __RECINT_IS_NOT_FUNDAMENTAL(T, int) = 0> rint(const T& b)
+        { *this = b.operator rint<K>(); } // Givaro::Integer: keep the sign
 
         // type_string
         static const std::string type_string () {
